@@ -45,7 +45,8 @@ class Listener:
                 c.close()
 
 def one(args):
-    idx, bits, port = args
+    idx, bits, port = args[:3]
+    stdin_file = len(args) > 3 and args[3]
     f = dict(zip(NAMES, bits))
     d = tempfile.mkdtemp(prefix='c18_')
     try:
@@ -64,8 +65,14 @@ def one(args):
         if f['end']: argv += ['-e', '6']
         env = {'PATH': '/usr/bin:/bin', 'HOME': d, 'TMPDIR': d, 'HTTPS_PROXY': 'http://run%d:x@127.0.0.1:%d' % (idx, port), 'NO_PROXY': ''}
         if f['env']: env.update(ATLAS_PUBLIC_KEY='epub', ATLAS_PRIVATE_KEY='epriv')
-        p = subprocess.run(argv, cwd=d, env=env, input=(LINE if f['stdin'] else None), stdin=(None if f['stdin'] else subprocess.DEVNULL),
-                           capture_output=True, timeout=60)
+        if f['stdin'] and stdin_file:
+            open(os.path.join(d, 'stdin.log'), 'wb').write(LINE)      # `anonymongo redact ... < stdin.log`: stdin is a regular file
+            with open(os.path.join(d, 'stdin.log'), 'rb') as fh:
+                p = subprocess.run(argv, cwd=d, env=env, stdin=fh, capture_output=True, timeout=60)
+            os.remove(os.path.join(d, 'stdin.log'))
+        else:
+            p = subprocess.run(argv, cwd=d, env=env, input=(LINE if f['stdin'] else None), stdin=(None if f['stdin'] else subprocess.DEVNULL),
+                               capture_output=True, timeout=60)
         files = sorted(x for x in os.listdir(d) if x != 'in.log')
         return idx, p.returncode, p.stdout[-300:], p.stderr[-300:], files
     finally:
@@ -80,10 +87,15 @@ def run(chk, replay=None):
     model = run_driver(['CLI ' + ''.join('1' if b else '0' for b in bits) for bits in combos])
     with ThreadPoolExecutor(max_workers=16) as ex:
         results = list(ex.map(one, [(i, bits, lst.port) for i, bits in enumerate(combos)]))
+    # the same for input redirected from a regular file (`< file`) instead of a pipe: every combination that has stdin input
+    sub_combos = [(i, bits) for i, bits in enumerate(combos) if bits[1]]
+    with ThreadPoolExecutor(max_workers=16) as ex:
+        results_f = list(ex.map(one, [(100000 + i, bits, lst.port, True) for i, bits in sub_combos]))
     import time; time.sleep(0.5); lst.stop = True
-    for (idx, rc, so, se, files), bits, m in zip(results, combos, model):
+    triples = list(zip(results, combos, model)) + [(r, bits, model[i]) for r, (i, bits) in zip(results_f, sub_combos)]
+    for (idx, rc, so, se, files), bits, m in triples:
         f = dict(zip(NAMES, bits))
-        chk.count(); chk.traces += 1; chk.nontriv(bits)
+        chk.count(); chk.traces += 1; chk.nontriv((bits, idx >= 100000))
         exp = rule(f)
         net = lst.hits.get('run%d' % idx, 0)
         mv, me = m.split()
@@ -94,7 +106,7 @@ def run(chk, replay=None):
         if 'key.file' in files: effects.add('key')
         if net: effects.add('net')
         accepted = not validation_error and rc in (0, 1) and (rc == 0 or b'Error downloading Atlas logs' in se)
-        case = {'flags': [n for n in NAMES if f[n]], 'rc': rc, 'stderr': se.decode('utf-8', 'replace'), 'files': files, 'network_attempts': net}
+        case = {'flags': [n for n in NAMES if f[n]], 'stdin_kind': ('regular file' if idx >= 100000 else 'pipe' if f['stdin'] else 'none'), 'rc': rc, 'stderr': se.decode('utf-8', 'replace'), 'files': files, 'network_attempts': net}
         got = ('accept' if accepted else 'reject')
         if got != mv.split(':')[0] or (accepted and (effects - {'read'}) != (set(me.split(',')) - {'read', '-'})) or (not accepted and effects):
             chk.disagree('verdict and side effects', case, (got, sorted(effects)), m)
@@ -112,6 +124,7 @@ def run(chk, replay=None):
     acc = sum(1 for bits in combos if rule(dict(zip(NAMES, bits))))
     chk.dist('accepted_by_rule', acc); chk.dist('rejected_by_rule', len(combos) - acc)
     chk.streams.append({'stream': 'all 8192 combinations: CLI vs extracted decide/effects vs independent rule table', 'cases': len(combos)})
+    chk.streams.append({'stream': 'the 4096 combinations with stdin input again, stdin redirected from a regular file', 'cases': len(sub_combos)})
     chk.sample({'flags': ['file', 'out', 'encrypt'], 'expected': 'accept:file'}); chk.sample({'flags': ['start', 'end', 'out', 'env'], 'expected': 'reject (Atlas without project/cluster)'})
     chk.assumptions += ["presence/absence only: flag VALUES (empty strings, zero dates, -q '') are not enumerated", "cobra/pflag parsing is not modelled",
                         "runtime failures after validation (unreachable Atlas endpoint, unreadable input) are not rejections 'decided from the flags'"]
